@@ -27,12 +27,13 @@ type timerState struct {
 type sleepWait struct{ fired bool }
 
 type clockState struct {
-	now     value // int64 instant (possibly symbolic)
-	n       int
-	timers  []*timerState
-	byPtr   map[*value]*timerState
-	fires   int
-	envUsed int
+	now       value // int64 instant (possibly symbolic)
+	n         int
+	timers    []*timerState
+	byPtr     map[*value]*timerState
+	fires     int
+	envUsed   int
+	voluntary int
 }
 
 func (i *interpreter) clk() *clockState {
@@ -142,7 +143,13 @@ func (i *interpreter) timerBeforeRecv(th *thread, c *channel) {
 	if t == nil || !t.active || len(c.buf) > 0 {
 		return
 	}
+	// voluntary firings (while other goroutines could still run) are capped; a timer that is the only thing
+	// left to make progress still fires (clockAdvance)
+	if i.clock.voluntary >= i.maxFires() {
+		return
+	}
 	if i.choose("clk", 2, "timer fired?") == 1 {
+		i.clock.voluntary++
 		i.fire(t)
 	}
 }
@@ -178,15 +185,29 @@ func (i *interpreter) clockAdvance() bool {
 	return true
 }
 
-// clockEnabledActions: number of environment actions offered at ordinary scheduling points
-// (AfterFunc timers and sleepers; channel timers fire lazily at their observation points).
+// maxFires is the budget of voluntary timer firings per run (firings while some goroutine could still run).
+// A timer that is the only thing left to make progress always fires (clockAdvance).
+func (i *interpreter) maxFires() int {
+	if mf, ok := i.opts.Params["maxfires"]; ok {
+		return mf
+	}
+	return 2
+}
+
+func (t *timerState) wakesSomeone() bool {
+	return t.active && (t.fn != nil || t.sleeper != nil || (t.ch != nil && hasLive(t.ch.recvq)))
+}
+
+// clockEnabledActions: number of environment actions offered at ordinary scheduling points: timers whose
+// firing is observed immediately (AfterFunc, sleepers, channel timers with a parked receiver). Channel timers
+// nobody is parked on fire lazily at their next observation point.
 func (i *interpreter) clockEnabledActions() int {
-	if i.clock == nil || i.clock.envUsed >= i.opts.Params["envActions"] {
+	if i.clock == nil || i.clock.voluntary >= i.maxFires() {
 		return 0
 	}
 	n := 0
 	for _, t := range i.clock.timers {
-		if t.active && (t.fn != nil || t.sleeper != nil) {
+		if t.wakesSomeone() {
 			n++
 		}
 	}
@@ -196,9 +217,9 @@ func (i *interpreter) clockEnabledActions() int {
 func (i *interpreter) clockDoAction(k int) {
 	n := 0
 	for _, t := range i.clock.timers {
-		if t.active && (t.fn != nil || t.sleeper != nil) {
+		if t.wakesSomeone() {
 			if n == k {
-				i.clock.envUsed++
+				i.clock.voluntary++
 				i.fire(t)
 				return
 			}
@@ -214,7 +235,8 @@ func (i *interpreter) timerStop(th *thread, t *timerState) bool {
 	}
 	if t.fn == nil && t.period == nil {
 		// has it fired already?
-		if i.choose("clk", 2, "timer fired before Stop?") == 1 {
+		if i.clock.voluntary < i.maxFires() && i.choose("clk", 2, "timer fired before Stop?") == 1 {
+			i.clock.voluntary++
 			i.fire(t)
 			return false
 		}
